@@ -580,8 +580,8 @@ impl AssemblyCode {
                                 }
                             }
                             if let Some(v) = &x_register {
-                                if v.eq(&inst.dasm_operand) {
-                                    // Remove this instruction
+                                if v.eq(&inst.dasm_operand) && flags == FlagsState::X {
+                                    // Remove this instruction (X and the flags already hold it)
                                     remove_second = !inst.protected;
                                 }
                             }
@@ -600,8 +600,8 @@ impl AssemblyCode {
                                 }
                             }
                             if let Some(v) = &y_register {
-                                if v.eq(&inst.dasm_operand) {
-                                    // Remove this instruction
+                                if v.eq(&inst.dasm_operand) && flags == FlagsState::Y {
+                                    // Remove this instruction (Y and the flags already hold it)
                                     remove_second = !inst.protected;
                                 }
                             }
@@ -656,6 +656,7 @@ impl AssemblyCode {
                             y_register = None;
                         }
                         AsmMnemonic::TAX => {
+                            flags = FlagsState::X;
                             x_register = accumulator.clone();
                             if let Some(v) = &accumulator {
                                 if v.ends_with(",X") {
@@ -670,6 +671,7 @@ impl AssemblyCode {
                             }
                         }
                         AsmMnemonic::TAY => {
+                            flags = FlagsState::Y;
                             y_register = accumulator.clone();
                             if let Some(v) = &accumulator {
                                 if v.ends_with(",Y") {
@@ -685,9 +687,11 @@ impl AssemblyCode {
                         }
                         AsmMnemonic::TXA => {
                             accumulator = x_register.clone();
+                            flags = FlagsState::A;
                         }
                         AsmMnemonic::TYA => {
                             accumulator = y_register.clone();
+                            flags = FlagsState::A;
                         }
                         AsmMnemonic::STA | AsmMnemonic::STX | AsmMnemonic::STY => {
                             if let Some(v) = &accumulator {
@@ -710,9 +714,29 @@ impl AssemblyCode {
                         | AsmMnemonic::SBC
                         | AsmMnemonic::EOR
                         | AsmMnemonic::AND
-                        | AsmMnemonic::ORA => accumulator = None,
-                        AsmMnemonic::LSR | AsmMnemonic::ASL => accumulator = None,
-                        AsmMnemonic::PLA | AsmMnemonic::PHA => accumulator = None,
+                        | AsmMnemonic::ORA => {
+                            accumulator = None;
+                            flags = FlagsState::A;
+                        }
+                        AsmMnemonic::LSR
+                        | AsmMnemonic::ASL
+                        | AsmMnemonic::ROL
+                        | AsmMnemonic::ROR => {
+                            // On the accumulator or on memory: either way N and Z no longer
+                            // describe what they did
+                            accumulator = None;
+                            flags = if inst.dasm_operand.is_empty() {
+                                FlagsState::A
+                            } else {
+                                FlagsState::Unknown
+                            };
+                        }
+                        AsmMnemonic::PLA => {
+                            accumulator = None;
+                            flags = FlagsState::A;
+                        }
+                        AsmMnemonic::PHA => accumulator = None,
+                        AsmMnemonic::PLP => flags = FlagsState::Unknown,
                         AsmMnemonic::JSR | AsmMnemonic::JMP => {
                             accumulator = None;
                             x_register = None;
